@@ -52,11 +52,11 @@ func (c timedCmd) shell(trace, tok string, T int) string {
 }
 
 type timedSpec struct {
-	T      int // ms
-	before []timedCmd
-	cmds   []timedCmd
-	after  []timedCmd
-	allow  bool
+	T           int // ms
+	before      []timedCmd
+	cmds        []timedCmd
+	after       []timedCmd
+	allow       bool
 	interactive bool // the task is declared interactive (its commands are attached to the standard input)
 }
 
